@@ -23,7 +23,7 @@ PID = "C12"
 ALLOWED_AXIOMS = []
 PROFILES = ["debug"]
 CORRESPONDENCE = "heap statistics of the real VM (hooks) vs the proved bound of Model/Growth.v with coq/Gen/GcParams.v"
-RULE = ("garbage-loop templates, one per allocation kind {pairs, vectors, strings, closures, continuations, eval code, "
+RULE = ("garbage-loop templates, one per allocation kind {pairs, vectors, strings, closures, continuations, eval code, eval code with fresh local names, "
         "top-level code, symbols, bignums, mixed} x live-set size {0, 10, 1000} x heap chunk {8192, 1024} x iteration "
         "counts n and 10n (quick n = 2000, thorough n = 100000; top-level-code kind: n = 300 / 3000 forms); a pair "
         "(n, 10n) is non-trivial when at least one collection ran in the 10n run and all were checked by the independent "
@@ -48,6 +48,10 @@ KINDS = {
     "closures": "((lambda (x) (lambda () (+ x 1))) i)",
     "continuations": "(call/cc (lambda (k) k))",
     "eval-code": "(eval (list '+ i 1))",
+    # code with FRESH local identifiers each time: what the compiler allocates per name
+    # (interned symbols, bindings, slots) must be garbage too
+    "eval-fresh-names": "(eval (list (list 'lambda (list (string->symbol (string-append \"fv\" (number->string i)))) "
+                        "(string->symbol (string-append \"fv\" (number->string i)))) i))",
     "symbols": "(string->symbol (string-append \"gs\" (number->string i)))",
     "bignums": "(* 123456789012345678901234567890 (+ i 1))",
     "mixed": "(list (make-vector 2 i) (number->string i) (lambda () i) (string->symbol (number->string i)))",
@@ -63,7 +67,8 @@ def loop_forms(kind, live, n):
 
 def toplevel_forms(live, n):
     setup = "(define live (let mk ((i 0) (acc '())) (if (= i %d) acc (mk (+ i 1) (cons (vector i) acc)))))" % live
-    return [setup] + ["((lambda (x) (list x %d)) %d)" % (i, i) for i in range(n)]
+    # every form uses its own local variable names
+    return [setup] + ["((lambda (x%d . r%d) (list x%d r%d %d)) %d)" % (i, i, i, i, i, i) for i in range(n)]
 
 
 def stats_case(chunk, forms):
